@@ -55,6 +55,14 @@ func probe(name string) GenSpec {
 	}
 }
 
+// probeOverlay: a probe configuration cloned inside the snapshot with a YAML patch.
+func probeOverlay(name, from string, patch map[string]string) GenSpec {
+	g := probe(name)
+	g.From = "verif_probes/" + from
+	g.YAMLPatch = patch
+	return g
+}
+
 // GenSet lists the configurations for a tier.
 func GenSet(tier string) []GenSpec {
 	wl := map[string]string{"exec.worker_limit": "2"}
@@ -75,6 +83,9 @@ func GenSet(tier string) []GenSpec {
 			testserver("singlefileomittable", "singlefile", map[string]string{"nullable_input_omittable": "true"}),
 			testserver("singlefileptrinput", "singlefile", map[string]string{"return_pointers_in_unmarshalinput": "true"}),
 			fed("usefunctionsyntaxforexecutioncontext"),
+			probeOverlay("customrootswl", "customroots", wl),
+			probeOverlay("customrootsfn", "customroots", map[string]string{"use_function_syntax_for_execution_context": "true"}),
+			probeOverlay("customrootsopt", "customroots", map[string]string{"nullable_input_omittable": "true", "return_pointers_in_unmarshalinput": "true", "call_argument_directives_with_null": "true", "omit_slice_element_pointers": "true"}),
 			GenSpec{GenConfig: pipeline.GenConfig{Name: "nullabledirectives", Dir: "codegen/testserver/nullabledirectives", Config: "gqlgen.yml", Stub: "stub.go", Schema: []string{"*.graphql"}},
 				ExecPkg: "codegen/testserver/nullabledirectives/generated"},
 			GenSpec{GenConfig: pipeline.GenConfig{Name: "integration", Dir: "integration/server", Schema: []string{"schema/*.graphql", "schema/*/*.graphql"}},
